@@ -765,7 +765,9 @@ def call_repo(ex, q, self_val, args, kw, st):
         # is loop-free and not being inlined already; anything else needs a contract
         has_loop = any(isinstance(n, (ast.For, ast.While, ast.AsyncFor)) for n in ast.walk(node))
         stack = getattr(ex, '_auto_inline_stack', [])
-        if q in stack or len(stack) > 6:
+        shape = getattr(getattr(ex, 'top_contract', None), 'shape_case', False)
+        if (q in stack and not (shape and stack.count(q) < 4)) or len(stack) > 8:
+            # (recursion over an explicit node shape is bounded by the depth of the shape)
             raise OutsideSubset('call of %s which has no contract' % q)
         lib('helper without a contract executed in place: ' + q)
         ex._auto_inline_stack = stack + [q]
